@@ -44,7 +44,7 @@ ALPHA = {
 }
 
 #: alternatives for the class of a node (sub-classes usable in the same positions)
-CLASS_ALTS = {"leaf": ["leafx"]}
+CLASS_ALTS = {"leaf": ["leafx"], "job": ["jobx"]}
 MAX_LIST = 2
 #: shapes of nested containers of configurations: groups of node tags (equal tags = the same node shared)
 NEST_SHAPES = [[["a"]], [["a"], ["b"]], [["a", "b"]], [["a"], []], [["a"], ["a"]], [["a", "b"], ["c"]]]
@@ -407,6 +407,8 @@ def seeds():
                                               "o": {"output_of": "t"}, "t": _N("jobout", x=3, up=_ref("u")), "p": _N("pre", k=2)}}
     S["job-outpre"] = {"root": "j", "nodes": {"j": _N("job", oin=_ref("o")), "o": {"output_of": "t", "pre": ["p"]}, "t": _N("jobout", x=3),
                                               "p": _N("pre", k=1, h=_ref("h")), "h": _N("holder", t=_ref("u")), "u": _N("job", x=2)}}
+    S["job-upx"] = {"root": "j", "nodes": {"j": _N("job", x=1, up=_ref("t"), oin=_ref("o"), h=_ref("h")), "h": _N("holder", lt=[_ref("t2")]),
+                                           "t": _N("jobx", x=3), "t2": _N("jobx", x=4), "o": {"output_of": "t"}}}
     S["job-ring"] = {"root": "j", "nodes": {"j": _N("job", ring=_ref("a")), "a": _N("ring", v=1, nxt=_ref("b")), "b": _N("ring", v=2, nxt=_ref("a"))}}
     return S
 
